@@ -15,11 +15,11 @@ CHECKS = {
     note='Trusted: the harness monitor (wrapping Op.eval/subclass eval at run time); prefix relations are not asserted when a swallowing host is on the call path.'),
  'C02': dict(
     technique='Hypothesis builtin sweep over the live function table with shape tables and hostile pool; deep type-walk oracle on every node result; vetoing sys.addaudithook',
-    text='Every builtin in the live table is called with typed and hostile arguments (attribute/format/path-like strings, callables, nested containers, tuples), composed and embedded in program forms, and used as a value; typed programs as well. Every node result, the result and the final names are walked for anything other than plain data, table entries and program lambdas; an audit hook flags and vetoes file/process/network/import/exec/compile events during eval. Exploration.',
+    text='Every builtin in the live table is called with typed and hostile arguments (attribute/format/path-like strings, callables, nested containers, tuples), composed and embedded in program forms, and used as a value; typed programs as well. calls of names that are not in the table (Python attribute and method names) on every kind of receiver are included. Every node result, the result and the final names are walked for anything other than plain data, table entries and program lambdas; an audit hook flags and vetoes file/process/network/import/exec/compile events during eval, and a cold-start job repeats the audit in a fresh interpreter armed before its very first eval. Exploration.',
     note='Trusted: CPython audit events as the observation point for I/O and dynamic code; lazy imports done by libraries for themselves are tallied only.'),
  'C07': dict(
     technique='Hypothesis type-directed program generator, differential against an independent reference interpreter (value, names, error class, op count)',
-    text='Type-directed random programs over every operator, statement form, slice form and deterministic builtin are evaluated by the implementation and by an independent reference interpreter run on the parsed tree; outcome class, canonical value (exact Decimal representation), host names afterwards and the number of charged operations must agree. Exploration.',
+    text='Type-directed random programs over every operator, statement form, slice form and deterministic builtin are evaluated by the implementation and by an independent reference interpreter run on the tree that the frozen reference parser derives from the program text; outcome class, canonical value (exact Decimal representation), host names afterwards and the number of charged operations must agree. Exploration.',
     note='Trusted: sqv/spec/refsem.py as the reading of the documented semantics; Decimal arithmetic itself is delegated to Python decimal (C08 covers exactness); cases outside the reference domain are discarded and counted.'),
  'C13': dict(
     technique='Hypothesis sweep of every non-mutator in the live table with shape tables; deep before/after snapshot oracle (structure, order, types, identity)',
@@ -27,7 +27,7 @@ CHECKS = {
     note='Trusted: the list of seven declared mutators from the property statement.'),
  'C03': dict(
     technique='Hypothesis operation sequences from host containers around the cap; run-time monitor invariant (no container beyond the bound) and at-cap exactness on wrapped mutators',
-    text='Generated sequences of every container-producing or -mutating path (push/insert/index and compound index assignment, +, +=, *=, nested growth, doubling chains, slices, higher-order and conversion builtins, string-to-list builtins) start from host lists/dicts of length 0,1,5,9998..10001 and strings up to 12000 chars. A monitor checks every node result and every container reachable from names after each mutating statement against bound = max(10000, longest host value, longest literal) and that element-adding operations at the cap raise ParserError leaving the container unchanged. Exploration.',
+    text='Generated sequences of every container-producing or -mutating path (push/insert/index and compound index assignment, +, +=, *=, nested growth, doubling chains, slices, higher-order and conversion builtins, string-to-list builtins) start from host lists/dicts of length 0,1,5,9998..10001 and strings up to 12000 chars. A second generator sweeps every entry of the live function table (biased to entries the harness has no shape table for) over near-cap containers and huge numeric arguments. A monitor checks every node result and every container reachable from names after each mutating statement against bound = max(10000, longest host value, longest literal) and that element-adding operations at the cap raise ParserError leaving the container unchanged. Exploration.',
     note='Trusted: harness monitor; overwrites of existing keys at the cap may fail or succeed; known finding D2b (uncapped strings) excluded by construction and printed as KNOWN-FINDING.'),
  'C04': dict(
     technique='Hypothesis operand pairs/chains over all host numeric types, one eval per step with digit-count oracle, in a CPU-capped helper process',
@@ -43,7 +43,7 @@ CHECKS = {
     note='Trusted: Python fractions and the 25-line rounding function; magnitudes kept within 10^+-200.'),
  'C09': dict(
     technique='bounded exhaustive enumeration of typed expression/statement shapes with logging probes (all truth assignments, every raising probe) + Hypothesis larger shapes; small reference evaluator of order and laziness',
-    text='All statement shapes with up to 2 (quick) / 3 (thorough) internal nodes over 32 node kinds, each under all truth assignments of its probes and with every single probe (or none) raising, are evaluated with logging host probes at the leaves; the probe log, value and type must equal those of a 60-line reference evaluator of shapes. Exhaustive within the bound; larger shapes sampled with Hypothesis.',
+    text='All statement shapes with up to 2 (quick) / 3 (thorough) internal nodes over 36 node kinds (including calls of undefined functions), also with identical probes at several leaves, each under all truth assignments of its probes and with every single probe (or none) raising, are evaluated with logging host probes at the leaves; the probe log, value and type must equal those of a 60-line reference evaluator of shapes. Exhaustive within the bound; larger shapes sampled with Hypothesis.',
     note='Trusted: the shape evaluator in sqv/props/c09.py; probes are host callables.'),
  'C10': dict(
     technique='Hypothesis programs with names bound at builtin/host/parameter level; differential against a reference scope model + invariants on the builtin table and host-invoked lambdas',
